@@ -18,7 +18,7 @@ RULE = ("(a) schedules (source-line granularity) of {accept thread submitting 2-
 ASSUMPTIONS = ["scheduling points are source lines of Pool/Worker methods and the job body; CPython can also switch between bytecodes of one line",
                "a job accepted just before a racing close() may be dropped (the statement's 'starts no further job'); only runs without close require every accepted job to run",
                "a refusal is illegitimate only if accepted-minus-completed(notify_done returned) < THREADPOOL_SIZE at process() entry"]
-REQUIRED_REACH = ["hook_connections_to_sibling_daemon_served", "schedules_explored", "jobs_executed", "refusals_seen", "closes_completed", "socket_clients_served", "socket_clients_refused", "unix_socket_runs", "proxy_retries_after_refusal", "start_faults_injected", "workers_killed_by_exiting_jobs", "full_pool_refusals_checked"]
+REQUIRED_REACH = ["pool_resizes_followed", "hook_connections_to_sibling_daemon_served", "schedules_explored", "jobs_executed", "refusals_seen", "closes_completed", "socket_clients_served", "socket_clients_refused", "unix_socket_runs", "proxy_retries_after_refusal", "start_faults_injected", "workers_killed_by_exiting_jobs", "full_pool_refusals_checked"]
 SHARD_TIMEOUT = {"quick": 240, "thorough": 3000}
 
 
@@ -433,6 +433,35 @@ def socket_run(P, rec, r, size, nclients, inject, unix=False):
                             rec.violation("connection-dropped-silently" if m is None else "refusal-without-reason", "all %d workers busy; a client with a %s in its connect message got: %s" % (size, label, text), pay)
                             break
                         rec.count("full_pool_refusals_checked")
+                    else:
+                        # THREADPOOL_SIZE is a configuration item like any other: the value it has when a connection arrives decides. Raised by
+                        # two while the pool is full: not all THREADPOOL_SIZE workers are busy any more, two more clients are served, the third is
+                        # refused. (Lowering the limit is not judged: idle workers of a larger pool are reused on the pinned tree, and the
+                        # statement does not say when they have to go)
+                        def attempt():
+                            c = wire.RawClient(fx.location, timeout=10.0)
+                            try:
+                                m = c.handshake("svc", ser)
+                            except (EOFError, OSError):
+                                c.close()
+                                return None, None
+                            return c, m.type
+                        saved_size = P.config.THREADPOOL_SIZE
+                        try:
+                            P.config.THREADPOOL_SIZE = size + 2
+                            got = []
+                            for _ in range(3):
+                                c, t = attempt()
+                                got.append("served" if t == wire.CONNECTOK else "refused" if t == wire.CONNECTFAIL else "dropped")
+                                if c is not None:
+                                    holders.append(c)
+                            rec.case(("pool-resized-up", size, unix))
+                            if got != ["served", "served", "refused"]:
+                                rec.violation("pool-limit-not-followed", "THREADPOOL_SIZE raised from %d to %d while %d clients were connected: the next three clients were %r" % (size, size + 2, size, got), pay)
+                            else:
+                                rec.count("pool_resizes_followed")
+                        finally:
+                            P.config.THREADPOOL_SIZE = saved_size
             finally:
                 for h in holders:
                     h.close()
